@@ -363,6 +363,34 @@ def rule_random(repo, rep):
 # ------------------------------------------------------------------ c
 
 
+def rule_mutable_defaults(repo, rep):
+    """(a, default arguments) a container created in a parameter default lives as long as the function object: a function that mutates such a
+    parameter in place (add / append / update / subscript store) keeps state between calls and between compilations."""
+    if not (_is_container(ast.parse("set()").body[0].value) and _is_container(ast.parse("[]").body[0].value)):
+        raise AnalysisError("mutable default matcher does not recognise its positive examples")
+    n = 0
+    for m in repo.core_modules():
+        for q, fn in m.functions.items():
+            args = fn.args
+            pos = args.posonlyargs + args.args
+            pairs = list(zip(pos[len(pos) - len(args.defaults):], args.defaults)) + [(a, d) for a, d in zip(args.kwonlyargs, args.kw_defaults) if d is not None]
+            for a, d in pairs:
+                if not _is_container(d):
+                    continue
+                n += 1
+                muts = []
+                for x in walk_no_nested(fn):
+                    if isinstance(x, ast.Call) and isinstance(x.func, ast.Attribute) and x.func.attr in MUTATORS and str(norm(x.func.value)) == a.arg:
+                        muts.append(str(norm(x))[:50])
+                    if isinstance(x, (ast.Assign, ast.AugAssign)):
+                        for t in (x.targets if isinstance(x, ast.Assign) else [x.target]):
+                            if isinstance(t, ast.Subscript) and str(norm(t.value)) == a.arg:
+                                muts.append(str(norm(x))[:50])
+                rep.check(not muts, "C14-a", f"{m.rel}:{q}", f"the default container of parameter `{a.arg}` is never mutated", f"`{muts[0] if muts else ''}` mutates the default `{str(norm(d))}`, which is created once: "
+                          "what one compilation records (seen tensor ids) is still there in the next one (weights counted once per process, the summary of a second compilation differs)")
+    return n
+
+
 def rule_sort_key_objects(repo, rep):
     """(c, tie-breaks) a tuple sort key built in a generator must never let the comparison reach the object itself: Tensor / Operation /
     LiveRange order by per-run ids (uuid, equivalence id). Where the key tuple carries the generator's own element as a bare name, an
@@ -397,6 +425,7 @@ def rule_sort_key_objects(repo, rep):
 
 
 def rule_order(repo, rep):
+    rule_mutable_defaults(repo, rep)
     rule_sort_key_objects(repo, rep)
     n = 0
     for mname in ("tflite_writer", "npu_serialisation", "tensor_allocation", "live_range", "extract_npu_subgraphs", "pass_packing", "high_level_command_stream_generator", "greedy_allocation",
